@@ -68,6 +68,8 @@ ATTR_POOL = [
     ("maybe", ["opt", ["int"]]),
     ("mixed", ["union", [["int"], ["str"]]]),
     ("mode", ["literal", ["a", "b", 1]]),
+    ("choice", ["opt", ["literal", ["a", "b", 1]]]),
+    ("either", ["union", [["int"], ["list", ["int"]]]]),
     ("pair", ["tuple", [["int"], ["str"]]]),
     ("seq", ["vtuple", ["int"]]),
     ("combo", ["tuple", [["int"], ["list", ["int"]]]]),
@@ -216,11 +218,17 @@ def gen_value(src, T, good=True, depth=0):
                 keys.append(kk)
         items = [gen_spec(src, T[1], depth + 1, key=kk) for kk in keys]
         if not good:
-            m = src.choice(2)
+            m = src.choice(3)
             if m == 0:
                 return src.pick([5, None])
+            if m == 1:
+                # a ready-made keyed container whose elements are not spec instances at all
+                return ["klraw" if k == "keyedlist" else "ksraw", [src.pick([5, 7]), src.pick([1.5, 9])]]
             items.append(src.pick([5, "zz"]))
             return ["list", items]
+        if src.chance(1, 6):
+            # a ready-made keyed container of bare keys: the library promotes them to keyed spec instances
+            return ["klraw" if k == "keyedlist" else "ksraw", keys]
         # a plain list / set of spec instances is cast into the keyed container by the library
         return [("kl" if k == "keyedlist" else "ks"), T[1], items] if src.chance(1, 2) else ["list", items]
     raise AssertionError(T)
@@ -269,6 +277,8 @@ def conforming_default(v, T):
     are written as KeyedList / KeyedSet, not as castable plain lists."""
     if T[0] in ("keyedlist", "keyedset") and isinstance(v, list) and v[0] == "list":
         return ["kl" if T[0] == "keyedlist" else "ks", T[1], v[1]]
+    if T[0] in ("keyedlist", "keyedset") and isinstance(v, list) and v[0] in ("klraw", "ksraw"):
+        return ["kl" if T[0] == "keyedlist" else "ks", T[1], [["spec", T[1], {"k": k}] for k in v[1]]]
     return v
 
 
@@ -516,6 +526,10 @@ class World:
                 from spec_classes.types import KeyedList, KeyedSet
 
                 return (KeyedList if k == "kl" else KeyedSet)([self.realize(x) for x in v[2]])
+            if k in ("klraw", "ksraw"):
+                from spec_classes.types import KeyedList, KeyedSet
+
+                return (KeyedList if k == "klraw" else KeyedSet)(list(v[1]))
             raise AssertionError(v)
         return v
 
@@ -677,7 +691,8 @@ def world_info(desc):
 
 
 PROFILES = {
-    "data": dict(max_attrs=7, do_not_copy_attrs=False),
+    "data": dict(max_attrs=7, do_not_copy_attrs=True),
+    "data_plain": dict(max_attrs=7, do_not_copy_attrs=False),
     "data_dnc": dict(max_attrs=7, do_not_copy_attrs=True, frozen_nested=True, post_copy=False),
     "frozen": dict(max_attrs=6, frozen=True),
 }
